@@ -67,13 +67,13 @@ pub fn run(seed: u64, rounds: usize, threads: usize, ops_per_thread: usize, time
             let (clock, stop) = (clock.clone(), stop.clone());
             std::thread::spawn(move || { while !stop.load(Ordering::SeqCst) { clock.0.fetch_add(1, Ordering::SeqCst); std::thread::sleep(Duration::from_millis(2)); } });
         }
-        let with_shutdown = rng.gen_bool(0.5) || (shutdown_mid && round % 4 == 1);
+        let with_shutdown = rng.gen_bool(0.5) || (shutdown_mid && round % 2 == 1);
         for thread in 0..threads {
             let (cache, sender, done_ops, lookups) = (cache.clone(), sender.clone(), done_ops.clone(), lookups.clone());
             let thread_seed: u64 = rng.gen();
-            // (every fourth round with a shutdown in the middle: nothing but the cheapest command, a delete of an absent key, from
+            // (every second round with a shutdown in the middle: nothing but the cheapest command, a delete of an absent key, from
             //  every thread as fast as it goes, so that senders are queueing at the very moment the worker winds down)
-            let hammer = shutdown_mid && round % 4 == 1;
+            let hammer = shutdown_mid && round % 2 == 1;
             std::thread::spawn(move || {
                 let mut rng = StdRng::seed_from_u64(thread_seed);
                 let mut ok = true;
@@ -126,7 +126,7 @@ pub fn run(seed: u64, rounds: usize, threads: usize, ops_per_thread: usize, time
         }
         drop(sender);
         // shutdown() in the middle of the traffic (every other round): it must return, and so must every caller
-        let hammer_round = shutdown_mid && round % 4 == 1;
+        let hammer_round = shutdown_mid && round % 2 == 1;
         let shutdown_done = if shutdown_mid && with_shutdown {
             let (cache, done_ops) = (cache.clone(), done_ops.clone());
             let after = rng.gen_range(0..(threads * ops_per_thread / 2).max(1));
